@@ -244,7 +244,11 @@ class Inliner:
             if pn not in bound:
                 if pn not in defaults:
                     return None
-                bound[pn] = copy.deepcopy(defaults[pn])
+                d_ = defaults[pn]
+                if isinstance(d_, (ast.Dict, ast.List, ast.Set, ast.ListComp, ast.DictComp, ast.SetComp)) or \
+                        (isinstance(d_, ast.Call) and not (isinstance(d_.func, ast.Name) and d_.func.id in ("tuple", "frozenset", "bytes", "int", "str"))):
+                    return None  # a default is evaluated once: a mutable one is not a fresh object per call
+                bound[pn] = copy.deepcopy(d_)
         assigned = _locals(g.node)
         mapping = {n: pre + n for n in (set(params) | set(g.kwonly) | assigned) if n != self_name}
         stmts = []
